@@ -72,7 +72,8 @@ class SplitRouter(object):
 
     def _db(self, app_label, model_name):
         if model_name is None:
-            return None
+            # app-level question (no model): answered only by 'app_level' policies
+            return ROUTES.get('@' + app_label)
         return ROUTES.get('%s.%s' % (app_label, model_name.lower()))
 
     def db_for_read(self, model, **hints):
@@ -143,6 +144,15 @@ def write_project(root, version):
             with open(os.path.join(edir, '__init__.py'), 'w') as fh:
                 fh.write('\n'.join(lines) + '\n')
             for e in evos:
+                if e.get('sql') is not None:
+                    # SQL evolution: '<database>_<label>.sql' per database, or
+                    # '<label>.sql' for the key ''
+                    for dbname, stmts in e['sql'].items():
+                        fn = ('%s_%s.sql' % (dbname, e['label'])) if dbname else \
+                            ('%s.sql' % e['label'])
+                        with open(os.path.join(edir, fn), 'w') as fh:
+                            fh.write(''.join(x + '\n' for x in stmts))
+                    continue
                 with open(os.path.join(edir, e['label'] + '.json'), 'w') as fh:
                     json.dump(e['mutations'], fh)
                 body = EVOLUTION_PY % {'json': e['label'] + '.json'}
